@@ -5,7 +5,6 @@ import (
 	"encoding/json"
 	"errors"
 	"fmt"
-	"io"
 	"os/exec"
 	"strings"
 	"testing"
@@ -433,6 +432,10 @@ type helper struct {
 	killed  bool
 	dead    bool
 	actorID uint64
+	// exited is closed when the simulated process has ended (died or was killed): what
+	// (*os.Process).Wait blocks on
+	exited    chan struct{}
+	hasExited bool
 }
 
 type world struct {
@@ -490,6 +493,16 @@ func (h *helper) setKilled() { h.killed = true }
 
 //go:norace
 func (h *helper) setDead() { h.dead = true }
+
+// exit marks the end of the simulated process (once).
+//
+//go:norace
+func (h *helper) exit() {
+	if !h.hasExited {
+		h.hasExited = true
+		close(h.exited)
+	}
+}
 
 // recMsg is the unique message carried by record k.
 func recMsg(k int64) []byte {
@@ -557,7 +570,7 @@ func installHooks() {
 			} else {
 				cfg.FailStarts, cfg.DieAt, cfg.StallLen = nil, 0, 0
 			}
-			h := &helper{kind: kind, cfg: cfg, cmd: c}
+			h := &helper{kind: kind, cfg: cfg, cmd: c, exited: make(chan struct{})}
 			if extraPort {
 				h.port = 1
 			}
@@ -574,14 +587,19 @@ func installHooks() {
 			if h := getWorld().findHelper(c); h != nil {
 				h.setKilled()
 				logEvent("helper-kill", 0, 0, h.kind)
-				if h.kind == "out" {
-					// a killed process no longer reads its stdin
-					if rc, ok := c.Stdin.(io.Closer); ok {
-						rc.Close()
-					}
-				}
+				// (os/exec does not close a Stdin/Stdout that is not a file: whoever writes to
+				// the stdin of a killed process is on its own, see runOutHelper)
+				h.exit()
 			}
 			return nil
+		},
+		ProcWait: func(c *exec.Cmd) {
+			h := getWorld().findHelper(c)
+			if h == nil {
+				return
+			}
+			<-h.exited
+			yield() // woken: re-enter the seeded schedule
 		},
 		HasProc: func(c *exec.Cmd) bool { return getWorld().findHelper(c) != nil },
 	})
@@ -589,6 +607,7 @@ func installHooks() {
 
 // runInHelper emits uniquely numbered records on the helper's stdout.
 func (w *world) runInHelper(h *helper) {
+	defer h.exit()
 	out := h.cmd.Stdout
 	if own, ok := out.(midicatdrv.VerifOwnedStdout); ok {
 		// a pipe made by StdoutPipe: the end of the process is the end of the stream
@@ -652,12 +671,29 @@ func (w *world) takeRec() int64 {
 }
 
 // runOutHelper reads its stdin and logs every complete line.
+//
+// What a real process looks like from the driver's side, with cmd.Stdin set to something that
+// is not a file (the driver uses an io.Pipe): os/exec copies from it into an OS pipe in a
+// goroutine of its own. When the process has ended, that goroutine still takes whatever is
+// written next, fails to pass it on and ends - without closing cmd.Stdin. From then on nobody
+// reads the pipe any more. (Checked against a real child process: the first write after its
+// death returns nil, the second one blocks for good.)
 func (w *world) runOutHelper(h *helper) {
 	in := h.cmd.Stdin
 	buf := make([]byte, h.cfg.ReadBuf)
 	var acc []byte
 	lines := 0
+	afterlife := func() {
+		h.exit()
+		big := make([]byte, 32*1024)
+		n, _ := in.Read(big)
+		logEvent("helper-dropped", int64(n), 0, "out")
+	}
 	for {
+		if h.isKilled() {
+			afterlife()
+			return
+		}
 		if h.cfg.Gap > 0 {
 			sleepSlots(h.cfg.Gap)
 		}
@@ -677,12 +713,10 @@ func (w *world) runOutHelper(h *helper) {
 			acc = acc[i+1:]
 			lines++
 			if h.cfg.DieAt > 0 && lines == h.cfg.DieAt {
-				// the helper dies: its end of the pipe is closed
+				// the helper dies
 				logEvent("helper-died", 0, 0, "out")
 				h.setDead()
-				if rc, ok := in.(io.Closer); ok {
-					rc.Close()
-				}
+				afterlife()
 				return
 			}
 		}
